@@ -31,6 +31,7 @@ CALL_FIELDS = {
     "NT2": (("x", "y"), {"y": "0"}),
     "FDC": (("x", "y"), {"y": "None"}),
 }
+DEFAULT_TREES = {"5": ("int", 5), "[]": ("list", ()), "7": ("int", 7), "'x'": ("str", "x"), "3": ("int", 3), "0": ("int", 0), "None": ("none", None)}
 ENUMS = ["Color.RED", "Color.GREEN", "Color.BLUE"]
 CLASSES = ["DC", "AT", "Color", "int", "str", "NT", "Weird", "list"]
 DD_FACTORIES = ["list", "int", "None", "dict"]
@@ -232,6 +233,10 @@ def gen_value(rng, depth=3, hashable=False, allow=None, size=3):
             if f in defaults and rng.random() < 0.4:
                 continue  # left at its default
             h = hashable or name == "FDC"
+            if f in defaults and rng.random() < 0.2:
+                # the default value written out explicitly (the tool omits it: pending `update`)
+                vals.append((f, DEFAULT_TREES[defaults[f]]))
+                continue
             vals.append((f, sub(h)))
         return ("call", (name, tuple(vals)))
     raise AssertionError(k)
@@ -355,7 +360,10 @@ def layout(t, rng: random.Random, handwritten=0.2, multiline=None, comments=True
             while name != "PM" and npos < len(fields) and fields[npos][0] == allf[npos]:
                 npos += 1
             npos = rng.randint(0, npos)
-        items = [sub(v) for f, v in fields[:npos]] + [f"{f}{rng.choice(['=', ' = '])}{sub(v)}" for f, v in fields[npos:]]
+        kw = list(fields[npos:])
+        if len(kw) > 1 and rng.random() < 0.25:
+            rng.shuffle(kw)  # keyword arguments in another order than the fields
+        items = [sub(v) for f, v in fields[:npos]] + [f"{f}{rng.choice(['=', ' = '])}{sub(v)}" for f, v in kw]
         return join(name + _ws(rng).replace("\t", "") + "(", items, ")")
     raise AssertionError(t)
 
